@@ -287,3 +287,11 @@ def maybe_unbound_loads(cfg: CFG, node: Node) -> List[str]:
                     out.append(x.id)
         stack.extend(ast.iter_child_nodes(x))
     return out
+
+
+def unbound_witness(cfg: CFG, node: Node, name: str):
+    """A feasible path (boolean / None-ness / record tokens respected) from the entry to *node* on which *name* is
+    never assigned, or None: only then is the read a possible UnboundLocalError."""
+    from .paths import find_path
+    stores = [n for n in cfg.nodes if n.kind in ('store_name', 'def') and n.meta.get('name') == name]
+    return find_path(cfg, [cfg.entry], [node], avoid=stores)
